@@ -254,7 +254,20 @@ func (fsm *FSM) Snapshot() (raft.FSMSnapshot, error) {
 	compactionEnd := compactionStart.Add(-1 * exp)
 
 	tmpServer := ircserver.NewIRCServer("testnetwork", time.Now())
-	if oldState, ok := fsm.lastSnapshotState[first-1]; !ok {
+	// The state to start from is the most recent snapshot state which does
+	// not include |first|. Usually that is the one stored under first-1, but
+	// raft-internal log entries (which are not stored in ircstore) can sit
+	// between the last message which was compacted and |first|.
+	base := first - 1
+	if _, ok := fsm.lastSnapshotState[base]; !ok {
+		found := false
+		for key := range fsm.lastSnapshotState {
+			if key < first && (!found || key > base) {
+				base, found = key, true
+			}
+		}
+	}
+	if oldState, ok := fsm.lastSnapshotState[base]; !ok {
 		if first == 1 {
 			// This is the first snapshot which this RobustIRC network
 			// is taking, there cannot be previous state.
@@ -270,7 +283,7 @@ func (fsm *FSM) Snapshot() (raft.FSMSnapshot, error) {
 		// needs to be retained in case the snapshot which is
 		// currently in progress fails and needs to be repeated.
 		for key, _ := range fsm.lastSnapshotState {
-			if key == first-1 {
+			if key == base {
 				continue
 			}
 			delete(fsm.lastSnapshotState, key)
@@ -279,6 +292,9 @@ func (fsm *FSM) Snapshot() (raft.FSMSnapshot, error) {
 
 	iterator := fsm.ircstore.GetBulkIterator(first, last+1)
 	defer iterator.Release()
+	// retained tracks whether any message was too new to be compacted. If
+	// not, the resulting state includes all messages up to |last|.
+	retained := false
 	available := iterator.First()
 	for available {
 		var nlog raft.Log
@@ -317,6 +333,7 @@ func (fsm *FSM) Snapshot() (raft.FSMSnapshot, error) {
 		parsed := robust.NewMessageFromBytes(nlog.Data, robust.IdFromRaftIndex(nlog.Index))
 		if parsed.Timestamp().After(compactionEnd) {
 			first = i
+			retained = true
 			break
 		}
 
@@ -329,6 +346,13 @@ func (fsm *FSM) Snapshot() (raft.FSMSnapshot, error) {
 			}
 			fsm.ircstore.DeleteRange(i, i)
 		}
+	}
+
+	if !retained {
+		// Every message was compacted, so the state must be filed under (and
+		// the snapshot must start after) the last message, not under the
+		// index in front of the first one.
+		first = last + 1
 	}
 
 	state, err := tmpServer.Marshal(first - 1)
